@@ -105,10 +105,58 @@ var badRules = []string{
 	`{type: "email", minLength: 1}`, `{type: "uuid", regex: "a"}`, `{type: "any", min: 1}`, `{type: "@zz1"}`, `{serializeFormat: "x"}`,
 }
 
+// ruleAtoms are single rules; a "rule soup" annotation combines a type with a
+// random handful of them, so that one node violates several rules at once (which
+// error is reported then depends on the order in which the library looks).
+var ruleTypes = []string{"string", "integer", "float", "decimal", "boolean", "email", "uri", "uuid", "date", "datetime", "any", "null", "enum", "mixed", "object", "array"}
+var ruleAtoms = []string{
+	`minLength: 2`, `maxLength: 256`, `regex: "^a"`, `min: 1`, `max: 100`, `exclusiveMinimum: true`, `exclusiveMaximum: true`,
+	`precision: 2`, `optional: true`, `nullable: true`, `const: true`, `enum: ["a", 1]`, `minItems: 1`, `maxItems: 3`,
+	`additionalProperties: true`, `allOf: "@a"`, `or: ["string", "integer"]`, `serializeFormat: "x"`,
+}
+
+var ruleFamilies = [][]string{
+	{`minLength: 2`, `maxLength: 256`, `regex: "^a"`},
+	{`min: 1`, `max: 100`, `exclusiveMinimum: true`, `exclusiveMaximum: true`, `precision: 2`},
+	{`minItems: 1`, `maxItems: 3`},
+	{`optional: true`, `nullable: true`, `const: true`},
+	{`additionalProperties: true`, `allOf: "@a"`, `or: ["string", "integer"]`, `enum: ["a", 1]`},
+}
+
+func (g *gctx) ruleSoup() (string, string) {
+	r := g.r
+	val := r.pick([]string{`"user@example.com"`, `"abc"`, `12`, `1.25`, `true`, `null`, `"2021-01-02"`, `"550e8400-e29b-41d4-a716-446655440000"`, `"http://a.b/c"`})
+	var parts []string
+	if r.pct(85) {
+		parts = append(parts, `type: "`+r.pick(ruleTypes)+`"`)
+	}
+	if r.pct(60) {
+		// two or three rules of one family: all of them apply (or are all banned)
+		// together, so which one is complained about first is the library's choice
+		fam := ruleFamilies[r.n(len(ruleFamilies))]
+		n := 2 + r.n(2)
+		if n > len(fam) {
+			n = len(fam)
+		}
+		for _, i := range r.perm(len(fam))[:n] {
+			parts = append(parts, fam[i])
+		}
+	} else {
+		n := 1 + r.n(3)
+		for _, i := range r.perm(len(ruleAtoms))[:n] {
+			parts = append(parts, ruleAtoms[i])
+		}
+	}
+	return val, "{" + strings.Join(parts, ", ") + "}"
+}
+
 func (g *gctx) scalar() (string, string) {
 	r := g.r
 	if r.pct(9) {
 		return r.pick([]string{`"abc"`, `1`, `"x"`, `12.5`, `true`}), r.pick(badRules)
+	}
+	if r.pct(10) {
+		return g.ruleSoup()
 	}
 	switch r.n(12) {
 	case 0:
@@ -475,6 +523,9 @@ func swarmCfg(r *rng, prop string) RunCfg {
 	return c
 }
 
+// noiseBase seeds the per-worker palette of C09 noise objects.
+var noiseBase uint64
+
 // genWorldC09: one project, two simultaneously live instances, each under its
 // own variation of map order / address numbering / registration order.
 func genWorldC09(seed uint64, proj *Project) *World {
@@ -482,7 +533,28 @@ func genWorldC09(seed uint64, proj *Project) *World {
 	w := &World{Prop: "C09", Seed: seed, Cfg: swarmCfg(r, "C09")}
 	w.Objects = []Project{*proj, *proj}
 	var ops []Op
+	// "On every repetition": in half of the runs unrelated work (other inputs, some
+	// of them torn) happens before the first and between the two instances. These
+	// noise objects are not judged (they have no reference); the two instances are.
+	noise := func() {
+		if !r.pct(35) {
+			return
+		}
+		for k := 1 + r.n(2); k > 0; k-- {
+			// drawn from a small per-worker palette, so that the reference
+			// processes that pre-screen them are computed once
+			p := genProject(&rng{s: hashSeed(noiseBase, 4242, uint64(r.n(64)))}, 35)
+			o := len(w.Objects)
+			w.Objects = append(w.Objects, p)
+			ops = append(ops, Op{Obj: o, Kind: "build"})
+			ops = append(ops, readOps(r, o, p.Kind, 1, 3)...)
+		}
+	}
+	noise()
 	for o := 0; o < 2; o++ {
+		if o == 1 {
+			noise()
+		}
 		b := Op{Obj: o, Kind: "build"}
 		canonical := o == 0 && r.pct(40)
 		mp, ap := false, 0
